@@ -54,16 +54,21 @@ def _drop_local(dec, idx):
     return out
 
 
+def _is_fault(d):
+    return d[0] not in ('run', 'env')
+
+
 class Minimiser(object):
     """Delta debugging over the whole counterexample: epochs, processes, operations,
     environment events, fired faults, pre-emptions and size knobs.  A candidate is kept only if
     it still violates the same oracle clause; its decisions are then re-recorded from what the
     run actually took, so the final replay file is exact."""
 
-    def __init__(self, spec, result, clause, budget_runs=2500, budget_s=120):
+    def __init__(self, spec, result, clause, budget_runs=2500, budget_s=120, signature=None):
         from sim import cachesim
         self.cs = cachesim
         self.clause = clause
+        self.signature = signature       # when given, candidates must keep the same signature
         self.spec = copy.deepcopy(spec)
         self.spec['decisions'] = result['decisions']
         self.result = result
@@ -78,7 +83,7 @@ class Minimiser(object):
         return {'ops': sum(len(p) for ep in spec['workload'] for p in ep['procs']),
                 'procs': _nprocs(spec['workload']), 'epochs': len(spec['workload']),
                 'env_events': sum(len(ep['env']) for ep in spec['workload']),
-                'decisions': len(flat), 'faults': sum(1 for d in flat if d[0] != 'run'),
+                'decisions': len(flat), 'faults': sum(1 for d in flat if _is_fault(d)),
                 'preemptions': sum(count_preemptions(ep) for ep in spec['decisions'])}
 
     def out_of_budget(self):
@@ -91,7 +96,8 @@ class Minimiser(object):
         res = self.cs.execute(cand)
         if res['harness_error']:
             return False
-        if any(v['clause'] == self.clause for v in res['violations']):
+        if any(v['clause'] == self.clause and (self.signature is None or v['signature'] == self.signature)
+               for v in res['violations']):
             cand['decisions'] = res['decisions']     # re-record what was actually taken
             # epochs after the violating one never ran: drop them from the workload as well
             del cand['workload'][len(res['decisions']):]
@@ -188,7 +194,7 @@ class Minimiser(object):
             while i >= 0:
                 if ei < len(self.spec['decisions']):
                     dec = self.spec['decisions'][ei]
-                    if i < len(dec) and dec[i][0] != 'run':
+                    if i < len(dec) and _is_fault(dec[i]):
                         cand = copy.deepcopy(self.spec)
                         cand['decisions'][ei][i] = ['run', dec[i][1]]
                         if self.try_(cand):
@@ -406,9 +412,9 @@ def main():
     for sig, (r, v) in list(by_sig.items())[:8]:
         from sim import cachesim
         spec = cachesim.make_spec(root, r['run_index'], thorough)
-        m = Minimiser(spec, r, v['clause'])
+        m = Minimiser(spec, r, v['clause'], signature=v['signature'])
         mspec, mres = m.run()
-        mv = [x for x in mres['violations'] if x['clause'] == v['clause']][0]
+        mv = [x for x in mres['violations'] if x['signature'] == v['signature']][0]
         if mv['signature'] in seen_min:
             continue
         seen_min.add(mv['signature'])
